@@ -138,7 +138,11 @@ fn entry_strategy(depth: u32, thorough: bool) -> BoxedStrategy<EntrySpec> {
     if depth == 0 {
         prop_oneof![8 => file, 2 => links].boxed()
     } else {
-        let dir = (stem_strategy(), proptest::option::weighted(0.6, size_strategy(false)), proptest::collection::vec(entry_strategy(depth - 1, thorough), 0..5), proptest::option::weighted(0.25, 1u32..300))
+        // directory names may also carry the two characters that end the path of a request target ('#', '?'): such a directory cannot be
+        // addressed by a raw target (C02 / C09 skip those paths), but it exists on disk - guards and parsers that disagree on where the path ends
+        // meet it (C01)
+        let dir_name = prop_oneof![5 => stem_strategy(), 1 => ("[a-z]{1,3}", prop::sample::select(vec!["#", "?", "#?", "?#"]), "[a-z]{0,3}").prop_map(|(a, m, b)| format!("{}{}{}", a, m, b))];
+        let dir = (dir_name, proptest::option::weighted(0.6, size_strategy(false)), proptest::collection::vec(entry_strategy(depth - 1, thorough), 0..5), proptest::option::weighted(0.25, 1u32..300))
             .prop_map(|(name, index, entries, html_twin)| EntrySpec::Dir { name, index, entries, html_twin });
         prop_oneof![6 => file, 3 => dir, 2 => links].boxed()
     }
